@@ -2,10 +2,14 @@
 
 use crate::common::Scenario;
 use crate::e1;
+use crate::e2::E2;
+use crate::e2_link;
 use crate::e3;
 
+static C05: E2<e2_link::Link> = E2(e2_link::Link);
+
 pub fn all() -> Vec<&'static dyn Scenario> {
-    vec![&e1::C01, &e1::C03, &e1::C12, &e1::C17, &e3::C11]
+    vec![&e1::C01, &e1::C03, &e1::C12, &e1::C17, &e3::C11, &C05]
 }
 
 pub fn get(name: &str) -> Option<&'static dyn Scenario> {
